@@ -1,8 +1,175 @@
 import GraafVerif.Driver.Common
-/-! Driver handlers for property C18 (ops the harness module `ops/c18.rs` emits). -/
-namespace GraafVerif.Driver.H18
-open GraafVerif GraafVerif.Driver
+import GraafVerif.Model.DistMatrix
+/-!
+Driver handlers for C18 (`DistanceMatrix`).
 
-def handlers : List (String × Handler) := []
+  dm_i  order inf [[u v w]…] [[u v]…]   (W = isize)      dm_u … (W = usize)
+      the harness calls `DistanceMatrix::new(order, inf)`, performs the `IndexMut<(u,v)>`
+      writes in order, then observes
+        =>  [ecc…] diam [center…] [periphery…] true|false [read…] [raw…]
+      (`read` = value or `panic` per requested `(u, v)`; `raw` = `dist[..]`), or
+        =>  panic-new            `new` panicked
+        =>  [panic-set k]        the k-th write panicked
+  dm_fw [wi n warcs]
+      `FloydWarshall::new(&digraph).distances()`; the matrix is read back through
+      `Index<(u, v)>` in row-major order
+        =>  inf [entry…] [ecc…] diam [center…] [periphery…] true|false
+
+The PROPFAIL oracle evaluates the textbook definitions on the entries that were SENT
+(association lookup over the write list, `List.max?` / `List.min?`, `filter` over the vertex
+range); it shares nothing with the model's `chunks` / running-minimum loop.
+-/
+namespace GraafVerif.Driver.H18
+open GraafVerif GraafVerif.Driver GraafVerif.DistMatrix
+
+/-! ## textbook oracle -/
+
+structure Tab where
+  n : Nat
+  inf : Int
+  rows : List (List Int)          -- rows[u][v]
+
+/-- Table of the entries after the writes (last write to a cell wins). -/
+def Tab.ofWrites (n : Nat) (inf : Int) (ws : List (Nat × Nat × Int)) : Tab :=
+  let rev := ws.reverse
+  { n := n, inf := inf,
+    rows := (List.range n).map (fun u => (List.range n).map (fun v =>
+      match rev.find? (fun w => w.1 == u && w.2.1 == v) with
+      | some w => w.2.2
+      | none => inf)) }
+
+def Tab.ofRaw (n : Nat) (inf : Int) (raw : List Int) : Tab :=
+  { n := n, inf := inf,
+    rows := (List.range n).map (fun u => (List.range n).map (fun v => (raw[u * n + v]?).getD inf)) }
+
+def Tab.entry (t : Tab) (u v : Nat) : Int := ((t.rows[u]?).getD [])[v]?.getD t.inf
+def Tab.ecc (t : Tab) : List Int := t.rows.map (fun r => (r.max?).getD t.inf)
+def Tab.diam (t : Tab) : Int := (t.ecc.max?).getD t.inf
+def Tab.center (t : Tab) : List Nat :=
+  let e := t.ecc
+  let mn := (e.min?).getD t.inf
+  (List.range t.n).filter (fun u => (e[u]?).getD t.inf == mn)
+def Tab.periphery (t : Tab) : List Nat :=
+  let e := t.ecc
+  let d := t.diam
+  (List.range t.n).filter (fun u => (e[u]?).getD t.inf == d)
+def Tab.connected (t : Tab) : Bool := !(t.ecc.contains t.inf)
+def Tab.raw (t : Tab) : List Int := t.rows.flatten
+def Tab.bounded (t : Tab) : Bool := t.rows.all (fun r => r.all (fun x => x ≤ t.inf))
+
+def Tab.metrics (t : Tab) : List V :=
+  [V.ofInts t.ecc, V.i t.diam, V.ofNats t.center, V.ofNats t.periphery, V.ofBool t.connected]
+
+/-- First differing component between what the code returned and what the definitions say. -/
+def firstDiff (names : List String) (obs want : List V) : Option String :=
+  if obs.length != want.length then some s!"shape: {obs.length} outputs, expected {want.length}"
+  else
+    let bad := (names.zip (obs.zip want)).filter (fun x => !(x.2.1 == x.2.2))
+    match bad with
+    | [] => none
+    | (nm, _, w) :: _ => some s!"{nm}: definition gives {w}"
+
+/-! ## model side -/
+
+def modelMetrics (m : DM) : List V :=
+  [V.ofInts (ecc m), V.i (diameter m), V.ofNats (center m), V.ofNats (periphery m), V.ofBool (isConnected m)]
+
+def readV (m : DM) (uv : Nat × Nat) : V :=
+  match get m uv.1 uv.2 with
+  | .panic => .a "panic"
+  | .ok x => .i x
+
+/-- index of the first panicking write (model). -/
+def firstBadWrite (m : DM) : List (Nat × Nat × Int) → Nat → Option Nat
+  | [], _ => none
+  | (u, v, w) :: ws, k =>
+    match set m u v w with
+    | .panic => some k
+    | .ok m' => firstBadWrite m' ws (k+1)
+
+def modelBuild (order : Nat) (inf : Int) (ws : List (Nat × Nat × Int)) (reads : List (Nat × Nat)) : List V :=
+  match new order inf with
+  | .panic => [.a "panic-new"]
+  | .ok m0 =>
+    match setAll m0 ws with
+    | .panic => [.l [.a "panic-set", V.ofNat ((firstBadWrite m0 ws 0).getD 0)]]
+    | .ok m => modelMetrics m ++ [.l (reads.map (readV m)), V.ofInts m.dist]
+
+def distinctCount (l : List Int) : Nat := l.eraseDups.length
+
+def shapeTags (t : Tab) : List String :=
+  let e := t.ecc
+  let allInf := e.all (· == t.inf)
+  let asym := (List.range t.n).any (fun u => (List.range t.n).any (fun v => t.entry u v != t.entry v u))
+  [ sizeTag t.n,
+    if allInf then "all-inf" else if t.connected then "connected" else "some-inf",
+    if t.center.length > 1 then "tie-min" else "single-min",
+    if t.periphery.length > 1 then "tie-max" else "single-max",
+    if asym then "asym" else "sym" ]
+
+def hBuild (ty : String) : Handler := fun _ args obs =>
+  match args with
+  | [order, inf, ws, reads] => do
+    let order ← V.nat? order
+    let inf ← V.int? inf
+    let ws ← V.listOf? (V.triple? V.nat? V.nat? V.int?) ws
+    let reads ← V.listOf? (V.pair? V.nat? V.nat?) reads
+    let model := modelBuild order inf ws reads
+    -- the property speaks about: order ≥ 1 (representable square), in-range cells, entries ≤ infinity
+    let sane := order ≥ 1 && order ≤ 4096 && ws.all (fun w => w.1 < order && w.2.1 < order)
+    if !sane then
+      let why := if order == 0 then "order0" else if order > 4096 then "order-huge" else "write-out-of-range"
+      -- order 0 must panic (assert in `new`): that much the API documents
+      let pf : Option String :=
+        if order == 0 && !(obs == [V.a "panic-new"]) then some "new(0, _) must panic" else none
+      pure (classify obs model pf (nt := false) [ty, "outside", why])
+    else
+      let t := Tab.ofWrites order inf ws
+      let bounded := t.bounded
+      let inReads := reads.filter (fun r => r.1 < order && r.2 < order)
+      let pf : Option String :=
+        if !bounded then none
+        else
+          match obs with
+          | [e, d, c, p, k, .l rs, rawV] =>
+            -- the property fixes which CELL (u, v) names, not the layout of the public `dist`
+            -- vector: only its multiset of entries is demanded here (the exact row-major
+            -- layout is part of the model correspondence, i.e. a MISMATCH if it changes)
+            let sortV := fun (xs : List Int) => V.ofInts (xs.mergeSort (fun a b => decide (a ≤ b)))
+            let raw := match V.listOf? V.int? rawV with
+              | some xs => sortV xs
+              | none => rawV
+            let obsIn := (reads.zip rs).filter (fun x => x.1.1 < order && x.1.2 < order) |>.map (·.2)
+            firstDiff ["eccentricities", "diameter", "center", "periphery", "is_connected", "index", "entries (new + index_mut, as a multiset)"]
+              [e, d, c, p, k, .l obsIn, raw]
+              (t.metrics ++ [.l (inReads.map (fun r => V.i (t.entry r.1 r.2))), sortV t.raw])
+          | _ => some "a call panicked on an in-range matrix"
+      let tags := [ty, if bounded then "bounded" else "above-inf"] ++ shapeTags t ++
+        [if ws.isEmpty then "fresh" else "written"]
+      pure (classify obs model pf (nt := order ≥ 2) tags)
+  | _ => none
+
+def hFw : Handler := fun _ args obs =>
+  match args, obs with
+  | [g], [inf, raw, e, d, c, p, k] => do
+    let g ← GDesc.parse g
+    let inf ← V.int? inf
+    let raw ← V.listOf? V.int? raw
+    let n := g.order
+    let m : DM := ⟨raw, inf, n⟩
+    let model := [V.i inf, V.ofInts raw] ++ modelMetrics m
+    let t := Tab.ofRaw n inf raw
+    let pf : Option String :=
+      if raw.length != n * n then some s!"matrix has {raw.length} entries for order {n}"
+      else if !t.bounded then some "an entry exceeds infinity"
+      else firstDiff ["eccentricities", "diameter", "center", "periphery", "is_connected"] [e, d, c, p, k] t.metrics
+    pure (classify obs model pf (nt := n ≥ 2) (["fw"] ++ shapeTags t))
+  | [_], _ =>
+    -- anything else (a panic) on a digraph of order ≥ 1 refutes the property outright
+    some (classify obs [] (some "FloydWarshall / DistanceMatrix call did not return a matrix") (nt := true) ["fw", "no-matrix"])
+  | _, _ => none
+
+def handlers : List (String × Handler) :=
+  [("dm_i", hBuild "isize"), ("dm_u", hBuild "usize"), ("dm_fw", hFw)]
 
 end GraafVerif.Driver.H18
